@@ -15,7 +15,8 @@ pub fn prop() -> Prop {
     rule: "case = (operator in merge/zip/combine_latest/with_latest_from/take_until/skip_until/sample/buffer, local or _threads form (per-node flag in the local build, or the all-thread-safe build); both inputs hot (Subject or create-handle), optionally behind a chain of 0..2 C03 operators; two scripts of <= 4 events each (items, complete, error at any position, events after the terminal; one case in eight: 20..60 (or 70 / 135 / 260 / 330) items per side interleaved in runs of 1..40 (or 66 / 130 / 300)); one interleaving of the two scripts chosen by the tape). \
            Oracle: delivered (step, notification) list == reference state machine for that operator over the merged timeline (buffer: notifier completion may flush+complete or be ignored). Non-trivial: both inputs emitted an item and the timeline alternates between the inputs at least once, or a terminal lies strictly inside the timeline. Distinct by hash(case). \
            Part `all-merges` enumerates every operator x all script pairs of <= 4+4 events over a 2-letter alphabet x every interleaving (complete in both tiers). \
-           Part `trees`: a combinator inside a pipeline - 0..2 C03 operators below each input and 0..2 above the combinator, in half of the cases a second combinator nested as its left or right input (three distinct hot inputs, scripts of <= 3 events each + post-terminal events, one generated three-way interleaving); oracle: the composed reference functions (every combination of the permitted readings of take(0), skip_last and buffer's notifier completion is accepted).",
+           Part `trees`: a combinator inside a pipeline - 0..2 C03 operators below each input and 0..2 above the combinator, in half of the cases a second combinator nested as its left or right input (three distinct hot inputs, scripts of <= 3 events each + post-terminal events, one generated three-way interleaving); oracle: the composed reference functions (every combination of the permitted readings of take(0), skip_last and buffer's notifier completion is accepted). \
+           Part `wlf-feedback`: with_latest_from (both forms) whose subscriber, from inside its own callback, sends a new value into the *secondary* input while a pair is being delivered (the one re-entrant emission the combinators support: the secondary side only stores a value); the arrival is ordered after the pair being delivered, so every later main item must be combined with it.",
     assumptions: &[
       "take_until / skip_until ignore the notifier's error and completion (separate error type; statement: switch exactly at the notifier's first item)",
       "zip / combine_latest complete when both inputs have completed (the library's and the statement's reading for merge; the statement is silent for zip)",
@@ -25,6 +26,7 @@ pub fn prop() -> Prop {
       Part { name: "random", run: run_random, tape_len: 64, quick_cases: 1_000_000, thorough_cases: 20_000_000, exhaustive_depth: None, exhaustive_budget: 0, exh_quick: false },
       Part { name: "all-merges", run: run_enum, tape_len: 32, quick_cases: 200_000, thorough_cases: 1_000_000, exhaustive_depth: Some(24), exhaustive_budget: 60_000_000, exh_quick: true },
       Part { name: "trees", run: run_tree, tape_len: 96, quick_cases: 600_000, thorough_cases: 12_000_000, exhaustive_depth: None, exhaustive_budget: 0, exh_quick: false },
+      Part { name: "wlf-feedback", run: run_wlf_feedback, tape_len: 32, quick_cases: 100_000, thorough_cases: 1_000_000, exhaustive_depth: None, exhaustive_budget: 0, exh_quick: false },
     ],
   }
 }
@@ -375,6 +377,90 @@ fn run_tree(c: &mut dyn Choices, ctx: &Ctx) -> Outcome {
     None
   };
   Outcome { verdict, nontrivial: nt, hash: hash_of(&case), labels, notes: vec![], desc }
+}
+
+/// with_latest_from whose consumer feeds the secondary input from inside its callback
+fn run_wlf_feedback(c: &mut dyn Choices, ctx: &Ctx) -> Outcome {
+  let tf = c.flag();
+  let threads = c.pick(3) == 0;
+  let n = 2 + c.pick(6);
+  let mut script = vec![];
+  let mut main_vals = vec![];
+  let (mut na, mut nb) = (0i64, 100i64);
+  for _ in 0..n {
+    if c.pick(3) == 0 {
+      script.push(Step::Emit(0, Ev::N(V::I(nb))));
+      nb += 1;
+    } else {
+      script.push(Step::Emit(1, Ev::N(V::I(na))));
+      main_vals.push(na);
+      na += 1;
+    }
+  }
+  match c.pick(4) {
+    0 => script.push(Step::Emit(1, Ev::C)),
+    1 => script.push(Step::Emit(1, Ev::Er(E(1)))),
+    2 => script.push(Step::Emit(0, Ev::Er(E(2)))),
+    _ => {}
+  }
+  let trig: Vec<i64> = main_vals.iter().copied().filter(|_| c.flag()).collect();
+  // hot input 0 is the secondary (`from`) side: it is the input the probe's feedback goes to
+  let node = Node::Bin(Bin::WithLatestFrom, tf, Box::new(Node::Src(Src::Hot(1))), Box::new(Node::Src(Src::Hot(0))));
+  let case = PCase { node, kinds: vec![IKind::Subject, IKind::Subject], script, mode: SchedMode::Fifo, threads };
+  // reference: sequential semantics, the fed-back value arrives right after the pair that triggered it
+  let mut expected: Tl = vec![];
+  let mut latest: Option<V> = None;
+  let mut fed = 0;
+  for (k, st) in case.script.iter().enumerate() {
+    let Step::Emit(i, ev) = st else { continue };
+    match (i, ev) {
+      (0, Ev::N(v)) => latest = Some(v.clone()),
+      (1, Ev::N(a)) => {
+        if let Some(b) = &latest {
+          expected.push((k as i64, Ev::N(pair(a.clone(), b.clone()))));
+          if trig.contains(&to_i(a)) {
+            latest = Some(V::I(to_i(a) + 5000));
+            fed += 1;
+          }
+        }
+      }
+      (_, Ev::Er(e)) => {
+        expected.push((k as i64, Ev::Er(e.clone())));
+        break;
+      }
+      (1, Ev::C) => {
+        expected.push((k as i64, Ev::C));
+        break;
+      }
+      _ => {}
+    }
+  }
+  let res = crate::common::run_pcase_fb(&case, false, &trig);
+  let verdict = match &res {
+    Err(m) => Verdict::Violation { sig: "panic:WithLatestFrom:feedback".into(), detail: format!("pipeline panicked: {m}") },
+    Ok(tr) => {
+      let act = trace_tl(tr);
+      if act == expected {
+        Verdict::Ok
+      } else {
+        Verdict::Violation { sig: "items:WithLatestFrom:feedback".into(), detail: format!("expected [{}] got [{}] (feedback triggers {:?})", tl_short(&expected), tl_short(&act), trig) }
+      }
+    }
+  };
+  let mut labels = vec!["op:with_latest_from", "feedback"];
+  if fed > 0 {
+    labels.push("feedback:value-replaced-inside-callback");
+  }
+  let desc = if ctx.want_desc || matches!(verdict, Verdict::Violation { .. }) {
+    let mut j = pcase_json(&case);
+    j["feedback_triggers"] = json!(trig);
+    j["expected"] = json!(tl_short(&expected));
+    j["delivered"] = res.as_ref().map(|t| json!(t.short())).unwrap_or_else(|m| json!({ "panic": m }));
+    Some(j)
+  } else {
+    None
+  };
+  Outcome { verdict, nontrivial: fed > 0 && expected.len() > fed, hash: hash_of(&(&case, &trig)), labels, notes: vec![], desc }
 }
 
 fn run_random(c: &mut dyn Choices, ctx: &Ctx) -> Outcome {
